@@ -18,7 +18,7 @@ fn inflator(height: u64) -> u128 {
     x
 }
 
-fn scenario(network: NetID, difficulty: u32, tip910: bool, prev_speed: u128, age: u64) -> (bool, Vec<String>, u128, u128, u128) {
+fn scenario(network: NetID, difficulty: u32, tip910: bool, prev_speed: u128, age: u64) -> (bool, Vec<String>, u128, u128, u128, Vec<String>) {
     let db = Database::new(InMemoryCas::default());
     let mut st: UnsealedState<InMemoryCas> = genesis(network, 0, 0).realize(&db);
     vh::fabricate(&mut st, network, 0, 0, 0, 0, prev_speed);
@@ -81,11 +81,42 @@ fn scenario(network: NetID, difficulty: u32, tip910: bool, prev_speed: u128, age
     if accepted(st2, mk(0, pb.clone(), other, difficulty)) { bad.push("proof for another coin".into()); }
     // the speed in the header is the maximum of the previous one and the demonstrated one
     let mut st3 = state.clone();
-    let applied = st3.apply_tx(&mk(cap, pb, cid, difficulty)).is_ok();
-    let after = st3.seal(None).header().dosc_speed;
+    let mint = mk(cap, pb, cid, difficulty);
+    let applied = st3.apply_tx(&mint).is_ok();
+    let after = st3.clone().seal(None).header().dosc_speed;
     if after < prev { bad.push("dosc speed decreased".into()); }
     if applied && after != prev.max(my_speed) { bad.push(format!("dosc speed {} is not max({}, {})", after, prev, my_speed)); }
-    (honest, bad, cap, after, prev)
+    // the block goes on: a second call at the same height spends the mint's first output; the record must survive, and the
+    // block built this way must be accepted by its parent (C06: an honestly built block is accepted)
+    let mut block_findings: Vec<String> = vec![];
+    if applied {
+        let spend = Transaction {
+            kind: TxKind::Normal,
+            inputs: vec![mint.output_coinid(0)],
+            outputs: vec![CoinData { covhash: always_true_covhash(), value: CoinValue(1000), denom: Denom::Mel, additional_data: vec![9u8].into() }],
+            fee: CoinValue(0),
+            covenants: vec![melvm::Covenant::always_true().to_bytes()],
+            data: Default::default(),
+            sigs: vec![],
+        };
+        let mut st4 = st3.clone();
+        if st4.apply_tx(&spend).is_ok() {
+            let sealed4 = st4.seal(None);
+            let after2 = sealed4.header().dosc_speed;
+            if after2 != prev.max(my_speed) {
+                bad.push(format!("dosc speed {} after a later transaction of the same block is not max({}, {})", after2, prev, my_speed));
+            }
+            match catch_unwind(AssertUnwindSafe(|| sealed.apply_block(&sealed4.to_block()).map(|s| s.header() == sealed4.header()))) {
+                Ok(Ok(true)) => {}
+                Ok(Ok(false)) => block_findings.push("block with a DoscMint and a spend of its output: accepted with a different header".into()),
+                Ok(Err(e)) => block_findings.push(format!("honest block with a DoscMint and a spend of its output is rejected: {e:?}")),
+                Err(_) => block_findings.push("apply_block panicked on an honest block with a DoscMint".into()),
+            }
+        } else {
+            block_findings.push("a spend of a fresh DoscMint output in the same block is rejected".into());
+        }
+    }
+    (honest, bad, cap, after, prev, block_findings)
 }
 
 pub fn c18_mint(req: &J) -> J {
@@ -96,8 +127,10 @@ pub fn c18_mint(req: &J) -> J {
         let mut honest_all = true;
         let mut caps = vec![];
         let mut last = (0u128, 0u128);
+        let mut block_findings: Vec<String> = vec![];
         for tip910 in [true, false] {
-            let (honest, bad, cap, after, prev) = scenario(NetID::Custom02, difficulty, tip910, prev_speed, 4);
+            let (honest, bad, cap, after, prev, bf) = scenario(NetID::Custom02, difficulty, tip910, prev_speed, 4);
+            block_findings.extend(bf);
             honest_all &= honest;
             all_bad.extend(bad.into_iter().map(|b| format!("{} ({})", b, if tip910 { "tip910 hash" } else { "legacy hash" })));
             caps.push(cap.to_string());
@@ -107,14 +140,15 @@ pub fn c18_mint(req: &J) -> J {
         let mut ages = vec![4u64, 99];
         if let Some(a) = req["mainnet_age"].as_u64() { if a >= 1 && a < 100 { ages.push(a); } }
         for age in ages {
-            let (young_accepted, _, _, _, _) = scenario(NetID::Mainnet, difficulty, false, prev_speed, age);
+            let (young_accepted, _, _, _, _, _) = scenario(NetID::Mainnet, difficulty, false, prev_speed, age);
             if young_accepted { all_bad.push(format!("mainnet mint against a {}-block-old coin", age)); }
         }
-        (honest_all, all_bad, caps, last.0, last.1)
+        (honest_all, all_bad, caps, last.0, last.1, block_findings)
     }));
     match r {
-        Ok((honest, bad, caps, after, prev)) => json!({"panicked": false, "honest_accepted": honest, "accepted_bad": bad, "reward_caps": caps,
-                                                     "dosc_speed_before": prev.to_string(), "dosc_speed_after": after.to_string()}),
+        Ok((honest, bad, caps, after, prev, bf)) => json!({"panicked": false, "honest_accepted": honest, "accepted_bad": bad, "reward_caps": caps,
+                                                     "dosc_speed_before": prev.to_string(), "dosc_speed_after": after.to_string(),
+                                                     "block_findings": bf}),
         Err(_) => json!({"panicked": true, "msg": crate::last_panic()}),
     }
 }
